@@ -398,7 +398,7 @@ def run(tier):
         R.fail("vacuous:too-few-histories", {"histories": tot.get("histories", 0)}, "explored set smaller than the bound implies")
     if min(tot.get("expect_typedef", 0), tot.get("expect_ordinary", 0)) < probes // 20 or len(hist) < 2 * len(S.PROBES):
         R.fail("vacuous:one-sided", {"hist": hist}, "expected classifications are not two-sided for every probe")
-    if len(states) < (1000 if quick else 4000):
+    if len(states) < (800 if quick else 2000):
         R.fail("vacuous:few-states", {"states": len(states)}, "reference model reached too few states")
     return R.finish(
         core.pick_samples(samples),
